@@ -176,6 +176,19 @@ def run(ctx):
                 r = oracle(c)
                 if r:
                     ctx.oracle_fail(c, r[0], r[1])
+                # model: longest common prefix of the folders' component lists
+                from dictIO.utils.path import highest_common_root_folder as hcr
+
+                folders = [(root / q) if (root / q).is_dir() else (root / q).parent for q in sel]
+                hl = "common_prefix_all " + wire.enc_list([list(f.resolve().parts) for f in folders], lambda l: wire.enc_list(l, wire.enc_str))
+                hm = wire.run_model([hl])[0]
+                try:
+                    hi = wire.enc_list(list(Path(hcr([root / q for q in sel])).parts), wire.enc_str)
+                except Exception as e:  # noqa: BLE001
+                    hi = "raise " + type(e).__name__
+                ctx.corr_compared += 1
+                if hm != hi and len(ctx.disagreements) < 20:
+                    ctx.disagree("highest_common_root_folder", c, hm, hi)
                 ctx.count(("h", repr(sel), ti), any("." in Path(s).name for s in sel) or len(sel) > 2, "hcr",
                           sample={"paths": sel} if len(ctx.samples) < 5 else None)
         finally:
